@@ -177,7 +177,7 @@ def buildRow (specs : List (List FieldSpec)) : Nat → Nat → Row
 
 def evalRows (seek : Bool) (t : T) (rows : List Row) : String :=
   if rows.isEmpty then "-" else
-  String.join (rows.map fun r => match evalBool seek ⟨r, []⟩ t with
+  String.join (rows.map fun r => match evalRow seek t r with
     | .ok b => b01 b
     | .err _ => "E"
     | .panic _ => "P")
